@@ -50,12 +50,8 @@ def main():
                 try:
                     with xd.quiet():
                         fp = KeepTell(data)
-                        saved = xload.PYTHON_MAGIC_INT
-                        xload.PYTHON_MAGIC_INT = -1
-                        try:
+                        with xd.forced_portable():
                             (version, ts, magic_int, co, pypy, ss, sip) = load_module_from_file_object(fp, filename=path)
-                        finally:
-                            xload.PYTHON_MAGIC_INT = saved
                     off = payload_offset(data, version)
                     r = rec_value(path, magic_int, version, data[off:], fp.told - off, co, 1)
                 except Exception as e:
